@@ -5,6 +5,7 @@ returned sequence has minimal total demerits (TeX.2021.813-878)."""
 from mir2smt import term as tm
 from mir2smt.term import I
 from mir2smt.execmir import Agg, Enum, Ref, Cell, Opaque
+from mir2smt import models_iter  # noqa: F401
 
 RULE, GLUE, KERN, PENALTY = 3, 11, 12, 13  # ds::Horizontal discriminants (source order)
 NORMAL, FIL = 0, 1
@@ -119,10 +120,11 @@ def glue_val(w, st, so, sh):
 class Shape:
     """kinds: string over R (rule), G (glue, finite stretch), F (glue, fil stretch), P (penalty), K (explicit kern), k (font kern)."""
 
-    def __init__(self, kinds, rs_order=NORMAL, tex_discards=True):
+    def __init__(self, kinds, rs_order=NORMAL, tex_discards=True, looseness=0):
         self.kinds = kinds
         self.rs_order = rs_order
         self.tex_discards = tex_discards
+        self.looseness = looseness
 
     def legal_breaks(self):
         """TeX.2021.866-868 on the concrete kinds (penalties are assumed finite: |p| < 10000)."""
@@ -178,7 +180,7 @@ def build(shape):
         adj = iv("adj_demerits", 0, 1 << 20)
         rs_w, rs_st, rs_sh = iv("rs_w", 0, W), iv("rs_st", 0, W), iv("rs_sh", 0, W)
         zero_glue = glue_val(I(0), I(0), NORMAL, I(0))
-        params = Agg([adj, I(0), I(0), I(0), scaled(I(0)), I(0), I(0), I(0), I(0), I(0), zero_glue, line_penalty, I(0), zero_glue, I(0),
+        params = Agg([adj, I(0), I(0), I(0), scaled(I(0)), I(0), I(0), I(0), I(0), I(0), zero_glue, line_penalty, I(shape.looseness), zero_glue, I(0),
                       glue_val(rs_w, rs_st, shape.rs_order, rs_sh), tol])
         lb = Agg([Ref(Cell(params)), Ref(Cell(Agg([scaled(L)]))), Ref(Cell(Agg([]))), Enum(I(0), {}, "Option"), Opaque("hyphenator")])
         lst = Ref(Cell(Agg(vals)))
@@ -282,7 +284,51 @@ def monotone(a):
     return tm.and_(*(conj + lem))
 
 
+def post_loose(a, ret, st=None):
+    """TeX.2021.873-875 for a non-final pass: start from a cheapest feasible sequence, move the line count towards the requested
+    looseness as far as a feasible sequence exists without overshooting, break ties by demerits; if the request is not met
+    exactly the pass gives up (None). Ties between cheapest sequences are resolved either way."""
+    import itertools
+    seqs = sequences(a)
+    loose = a["shape"].looseness
+    if ret.tag.val == 1:
+        v = ret.pay[1][0]
+        while isinstance(v, Ref):
+            v = v.cell.v
+        got = [int(x.val) for x in v.fields]
+        if not [s_ for s_ in seqs if s_[0] == got]:
+            return tm.FALSE
+    else:
+        got = None
+    disj = []
+    idx = range(len(seqs))
+    for r in range(0, len(seqs) + 1):
+        for F in itertools.combinations(idx, r):
+            pattern = tm.and_(*[(seqs[i][1] if i in F else tm.not_(seqs[i][1])) for i in idx])
+            if not F:
+                if got is None:
+                    disj.append(pattern)
+                continue
+            for b in F:
+                b_min = tm.and_(*[tm.le(seqs[b][2], seqs[i][2]) for i in F])
+                L0 = len(seqs[b][0])
+                diffs = {len(seqs[i][0]) - L0 for i in F}
+                cand = [d for d in diffs if (0 <= d <= loose if loose > 0 else loose <= d <= 0)]
+                actual = max(cand) if loose > 0 else min(cand)
+                if actual != loose:
+                    if got is None:
+                        disj.append(tm.and_(pattern, b_min))
+                    continue
+                same = [i for i in F if len(seqs[i][0]) == L0 + actual]
+                for r_ in same:
+                    if got is not None and seqs[r_][0] == got:
+                        disj.append(tm.and_(pattern, b_min, *[tm.le(seqs[r_][2], seqs[i][2]) for i in same]))
+    return tm.or_(*disj) if disj else tm.FALSE
+
+
 def post(a, ret, st=None):
+    if a["shape"].looseness != 0:
+        return post_loose(a, ret, st)
     seqs = sequences(a)
     if ret.tag.val == 0:  # None
         return tm.and_(*[tm.not_(f) for _, f, _ in seqs])
@@ -319,7 +365,7 @@ def native_spec(shape):
     names = []
     for i, c in enumerate(shape.kinds):
         names += {"R": [f"w{i}"], "G": [f"w{i}", f"st{i}", f"sh{i}"], "F": [f"w{i}", f"st{i}", f"sh{i}"], "K": [f"w{i}"], "k": [f"w{i}"], "P": [f"p{i}"]}[c]
-    names += ["line_width", "tolerance", "line_penalty", "adj_demerits", "rs_w", "rs_st", "rs_sh", "rs_order"]
+    names += ["line_width", "tolerance", "line_penalty", "adj_demerits", "rs_w", "rs_st", "rs_sh", "rs_order", "looseness"]
     rnd = random.Random(hash(shape.kinds) & 0xffff)
     pt = 65536
     vecs = []
@@ -335,15 +381,15 @@ def native_spec(shape):
             elif nme.startswith("p"):
                 v[nme] = rnd.choice([-9999, -200, -50, 0, 50, 200, 9999])
         v.update(line_width=100 * pt, tolerance=rnd.choice([0, 100, 200, 1000, 10000]), line_penalty=rnd.choice([0, 10, 200]), adj_demerits=rnd.choice([0, 10000]),
-                 rs_w=rnd.choice([0, 5 * pt]), rs_st=rnd.choice([0, 20 * pt, 60 * pt]), rs_sh=rnd.choice([0, 3 * pt]), rs_order=shape.rs_order)
+                 rs_w=rnd.choice([0, 5 * pt]), rs_st=rnd.choice([0, 20 * pt, 60 * pt]), rs_sh=rnd.choice([0, 3 * pt]), rs_order=shape.rs_order, looseness=shape.looseness)
         vecs.append(v)
-    return {"fn": "kp_pass_" + shape.kinds, "args": names, "vectors": vecs, "vectors_only": True, "defaults": {"rs_order": shape.rs_order}}
+    return {"fn": "kp_pass_" + shape.kinds, "args": names, "vectors": vecs, "vectors_only": True, "defaults": {"rs_order": shape.rs_order, "looseness": shape.looseness}}
 
 
-def obligation(kinds, rs_order=NORMAL, **kw):
-    shape = Shape(kinds, rs_order)
+def obligation(kinds, rs_order=NORMAL, looseness=0, **kw):
+    shape = Shape(kinds, rs_order, looseness=looseness)
     n_b = len(shape.legal_breaks())
-    name = f"c04_pass_{kinds}" + ("_rsfil" if rs_order == FIL else "")
+    name = f"c04_pass_{kinds}" + ("_rsfil" if rs_order == FIL else "") + ("" if looseness == 0 else f"_loose{'p' if looseness > 0 else 'm'}{abs(looseness)}")
     return dict(engine="B", name=name, crates=["boxworks-knuthplass", "common", "boxworks"],
                 fn=("boxworks-knuthplass", "break_line_single_attempt", "LineBreaker", None), args=[], build_args=build(shape),
                 unroll=len(kinds) + 6, pre=monotone, env_models=[(r"^badness$", env_badness)], uf_mul=uf_mul, prune=True,
@@ -353,4 +399,4 @@ def obligation(kinds, rs_order=NORMAL, **kw):
                 funcs=["boxworks_knuthplass::LineBreaker::break_line_single_attempt (generic MIR; try_break inlined), Diffs, Scaled64 ops, badness, demerits, num_nodes_for_next_class, ds::Horizontal::precedes_break (all from the dump); Vec/VecDeque/iterators modelled"],
                 bound=(f"horizontal list of shape {kinds} (R rule, G finite glue, F fil glue, P penalty, K explicit kern, k font kern): {n_b} interior legal breakpoint(s), "
                        "every width/stretch/shrink in [0, 2^28], penalties in [-20000, 10000) (forced breaks included), one line width, tolerance in [0, 10000], line_penalty in [0, 10000], adj_demerits in [0, 2^20], "
-                       "symbolic right_skip, looseness 0, force_solution false, emergency_stretch 0"))
+                       f"symbolic right_skip, looseness {looseness}, force_solution false, emergency_stretch 0"))
